@@ -387,9 +387,27 @@ vf::Result check_irq(const ICase& c, const std::vector<std::string>& t) {
 ICase build_cntx(vf::Stream& s) {
     ICase c;
     base_state(c, s);
-    unsigned kind = (unsigned)s.below(6);
+    unsigned kind = (unsigned)s.below(9);
     c.cycles = 2;
     switch (kind) {
+    case 6: { // store ; clobber a one-way-saved register ; restore  -> the saved value comes back
+        uint16_t v = icase::gen_u16(s);
+        bool flags = s.bits(1);
+        c.opcode = W("cntx_s()", {});
+        c.expansion = flags ? W("mov(Imm16,SttMod)", {-1, 0}) : W("mov_repc(Imm16)", {-1}); // mov #v, stt0 / mov #v, repc
+        c.more_code = {v, W("cntx_r()", {})};
+        c.cycles = 3;
+        c.tag = std::string("cntxclobber ") + (flags ? "flags " : "repc ") + vf::hex(v);
+        break;
+    }
+    case 7:
+    case 8: { // a single bank exchange swaps exactly the register pairs its flags name
+        unsigned f = (unsigned)s.below(64);
+        c.opcode = W("banke(BankFlags)", {(long)f});
+        c.cycles = 1;
+        c.tag = "bankesingle " + std::to_string(f);
+        break;
+    }
     case 0:
     case 1:
         c.opcode = W("cntx_s()", {});
@@ -426,6 +444,56 @@ vf::Result check_cntx(const ICase& c, const std::vector<std::string>& t) {
     icase::IResult r = sut().exec(c);
     if (r.outcome != 0) {
         vf::note(0, false);
+        return vf::Result::pass();
+    }
+    if (t[0] == "cntxclobber" && t.size() >= 3) {
+        State want = after_context_roundtrip(c.st);
+        want[flat::F_pc] = c.st[flat::F_pc] + 4;
+        uint16_t v = (uint16_t)vf::unhex(t[2]);
+        if (t[1] == "repc" && c.st[flat::F_crep]) {
+            want[flat::F_repc] = v; // repc is not part of the context when crep = 1
+            vf::klass("clobbered repc survives (crep = 1)");
+        } else
+            vf::klass(t[1] == "repc" ? "clobbered repc restored from its save slot" : "clobbered flags restored from their save slots");
+        if (!(r.after == want)) {
+            std::string d = flat::diff(r.after, want);
+            return vf::Result::fail("C08:cntxclobber:" + t[1] + ":" + d.substr(0, d.find(':')),
+                                    "store ; overwrite " + t[1] + " ; restore does not bring the saved value back (got vs expected) " + d);
+        }
+        vf::note(vf::hash_str(icase::encode(c)), true);
+        return vf::Result::pass();
+    }
+    if (t[0] == "bankesingle" && t.size() >= 2) {
+        unsigned f = std::stoul(t[1]);
+        State want = c.st;
+        want[flat::F_pc] = c.st[flat::F_pc] + 1;
+        auto sw = [&](int a, int b) { std::swap(want[a], want[b]); };
+        if (f & 1) {
+            sw(flat::F_stepi, flat::F_stepib);
+            sw(flat::F_modi, flat::F_modib);
+            if (c.st[flat::F_stp16])
+                sw(flat::F_stepi0, flat::F_stepi0b);
+        }
+        if (f & 2)
+            sw(flat::F_r + 4, flat::F_r4b);
+        if (f & 4)
+            sw(flat::F_r + 1, flat::F_r1b);
+        if (f & 8)
+            sw(flat::F_r + 0, flat::F_r0b);
+        if (f & 16)
+            sw(flat::F_r + 7, flat::F_r7b);
+        if (f & 32) {
+            sw(flat::F_stepj, flat::F_stepjb);
+            sw(flat::F_modj, flat::F_modjb);
+            if (c.st[flat::F_stp16])
+                sw(flat::F_stepj0, flat::F_stepj0b);
+        }
+        if (!(r.after == want)) {
+            std::string d = flat::diff(r.after, want);
+            return vf::Result::fail("C08:bankesingle:" + d.substr(0, d.find(':')), "banke " + t[1] + " did not exchange exactly the named pairs (got vs expected) " + d);
+        }
+        vf::klass("single bank exchange");
+        vf::note(vf::hash_str(icase::encode(c)), f != 0);
         return vf::Result::pass();
     }
     State want = t[0] == "cntx" ? after_context_roundtrip(c.st) : c.st;
